@@ -41,11 +41,37 @@ pub fn parse_sched(s: &str) -> Option<Vec<Sched>> {
     Some(v)
 }
 
-pub fn show_reqs(r: &[(usize, usize)]) -> String {
-    if r.is_empty() {
-        return "-".into();
+/// End of the current frame as far as the stream determines it (same definition as `frameLimit` in the
+/// Lean driver): header + remaining length when the length field is complete, 5 when it runs into a fifth
+/// continuation byte, one past the stream when it is cut short.
+pub fn frame_limit(bs: &[u8]) -> usize {
+    if bs.is_empty() {
+        return 1;
     }
-    r.iter().map(|(a, b)| format!("{}:{}", a, b)).collect::<Vec<_>>().join(";")
+    let (mut mul, mut val) = (1usize, 0usize);
+    for k in 0..4 {
+        match bs.get(1 + k) {
+            None => return bs.len() + 1,
+            Some(b) => {
+                val += (*b as usize % 128) * mul;
+                if *b < 128 {
+                    return 1 + (k + 1) + val;
+                }
+                mul *= 128;
+            }
+        }
+    }
+    5
+}
+
+/// The property-relevant abstraction of the read requests: every offered buffer has room for at least one
+/// byte and ends within the current frame (the exact read sizes are an implementation choice).
+pub fn show_reqs(bs: &[u8], r: &[(usize, usize)]) -> String {
+    let lim = frame_limit(bs);
+    match r.iter().find(|(a, b)| *b == 0 || a + b > lim) {
+        None => "ok".into(),
+        Some((a, b)) => format!("bad({}:{})", a, b),
+    }
 }
 
 fn enc_len_str<E>(r: Result<usize, E>, f: impl Fn(&E) -> String) -> String {
@@ -185,7 +211,7 @@ pub fn v3_poll(bytes: &[u8], sched: Vec<Sched>, term: Term) -> String {
         }
         Err(e) => format!("err {}", error(&e)),
     };
-    format!("{} consumed={} pend={} reqs={}", r, rd.pos, rd.pendings, show_reqs(&rd.requests))
+    format!("{} consumed={} pend={} reqs={}", r, rd.pos, rd.pendings, show_reqs(bytes, &rd.requests))
 }
 
 pub fn v3_cwp(proto: &str, bytes: &[u8]) -> String {
@@ -328,7 +354,7 @@ pub fn v5_poll(bytes: &[u8], sched: Vec<Sched>, term: Term) -> String {
         }
         Err(e) => format!("err {}", error_v5(&e)),
     };
-    format!("{} consumed={} pend={} reqs={}", r, rd.pos, rd.pendings, show_reqs(&rd.requests))
+    format!("{} consumed={} pend={} reqs={}", r, rd.pos, rd.pendings, show_reqs(bytes, &rd.requests))
 }
 
 pub fn v5_cwp(proto: &str, rl: u32, bytes: &[u8]) -> String {
